@@ -49,15 +49,6 @@ Proof.
   - destruct (c_idx c) as [|j] eqn:Ej; [lia|]. simpl. rewrite Nat.sub_0_r. reflexivity.
 Qed.
 
-Lemma prev_early_wrap l c :
-  c_idx c < length l -> (c_idx c <> 0 \/ (0 <= c_lap c - 1)%Z) -> c_valid c = true ->
-  c_prev PrevDecEarly l c = c_prev PrevWrap l c.
-Proof.
-  intros H D V. unfold c_prev. destruct (Nat.eqb_spec (c_idx c) 0) as [E|E]; [|reflexivity].
-  destruct D as [D|D]; [lia|].
-  destruct (Z.ltb_spec (c_lap c - 1) 0); [lia|]. reflexivity.
-Qed.
-
 (* ------------------------------------------------------------------ the invariant of every reachable state *)
 
 (* position inside the list, current handle read from it, and "valid => 0 <= lap < max_laps" *)
@@ -244,10 +235,6 @@ Proof.
     + destruct (length l); [discriminate|]. destruct (nth_error l n); [|discriminate].
       intros H; injection H as <-; simpl. destruct (c_lap c - 1 <? 0)%Z; [discriminate|auto].
     + destruct (c_idx c); [discriminate|]. destruct (nth_error l n); [|discriminate]. intros H; injection H as <-; auto.
-  - destruct (c_idx c =? 0).
-    + destruct (c_lap c - 1 <? 0)%Z; [intros H; injection H as <-; simpl; discriminate|].
-      destruct (length l); [discriminate|]. destruct (nth_error l n); [|discriminate]. intros H; injection H as <-; auto.
-    + destruct (nth_error l (c_idx c - 1)); [|discriminate]. intros H; injection H as <-; auto.
 Qed.
 
 Lemma next_never_validates nx l m c c' : c_next nx l m c = Some c' -> c_valid c' = true -> c_valid c = true.
@@ -284,21 +271,6 @@ Proof. reflexivity. Qed.
 (* stepping a circulator that is invalid at construction is undefined for the common forms *)
 Lemma step_on_empty_undefined m : c_next NextEq [] m c_invalid = None /\ c_prev PrevWrap [] c_invalid = None.
 Proof. split; reflexivity. Qed.
-
-(* ------------------------------------------------------------------ CellFaceIterImpl: early return *)
-
-(* -- at begin leaves hf_iter_ at end(): the NEXT ++ is undefined; all other forms come back with valid()=false *)
-Lemma cf_prev_at_begin_then_next_undefined l m x t :
-  l = x :: t ->
-  c_prev PrevDecEarly l (mkC 0 0%Z true (Some x)) = Some (mkC (length l) (-1)%Z false (Some x)) /\
-  c_next NextEq l m (mkC (length l) (-1)%Z false (Some x)) = None.
-Proof.
-  intros ->. split; [reflexivity|]. unfold c_next, c_read. cbn [c_idx].
-  destruct (Nat.eqb_spec (S (length (x :: t))) (length (x :: t))) as [E|E]; [lia|].
-  destruct (nth_error (x :: t) (S (length (x :: t)))) eqn:N; [|reflexivity].
-  assert (nth_error (x :: t) (S (length (x :: t))) <> None) by congruence.
-  apply nth_error_Some in H. lia.
-Qed.
 
 (* ------------------------------------------------------------------ wrappers = the plain machine on the mapped list *)
 
@@ -605,11 +577,8 @@ Theorem prev_next_any nx pv l m c c' :
 Proof.
   intros W V N V'. rewrite next_any_eq in N by (destruct W; assumption).
   pose proof (next_wf _ _ _ _ W N) as W'. pose proof (prev_next _ _ _ _ W V N V') as P.
-  destruct pv; [exact P| |].
-  - rewrite prev_dec_wrap by (destruct W'; assumption). exact P.
-  - rewrite prev_early_wrap; [exact P|destruct W'; assumption| |exact V'].
-    destruct W as (Hi & _ & Hv). specialize (Hv V). rewrite next_eq_step in N by exact Hi.
-    destruct (S (c_idx c) =? length l); injection N as <-; simpl; [right; lia|left; lia].
+  destruct pv; [exact P|].
+  rewrite prev_dec_wrap by (destruct W'; assumption). exact P.
 Qed.
 
 Theorem next_prev_any nx pv l m c c' :
@@ -618,13 +587,7 @@ Theorem next_prev_any nx pv l m c c' :
 Proof.
   intros W V N V'.
   assert (N' : c_prev PrevWrap l c = Some c').
-  { destruct pv; [exact N| |].
-    - rewrite prev_dec_wrap in N by (destruct W; assumption). exact N.
-    - destruct (Nat.eq_dec (c_idx c) 0) as [E0|E0]; [|rewrite prev_early_wrap in N by (try tauto; destruct W; assumption); exact N].
-      destruct (Z.ltb_spec (c_lap c - 1) 0) as [Hl|Hl].
-      + unfold c_prev in N. rewrite E0 in N. simpl in N. destruct (Z.ltb_spec (c_lap c - 1) 0); [|lia].
-        injection N as <-. discriminate.
-      + rewrite prev_early_wrap in N by (try (right; lia); destruct W; assumption). exact N. }
+  { destruct pv; [exact N|]. rewrite prev_dec_wrap in N by (destruct W; assumption). exact N. }
   pose proof (prev_wf _ _ _ _ W N') as W'.
   rewrite next_any_eq by (destruct W'; assumption). exact (next_prev _ _ _ _ W V N' V').
 Qed.
@@ -756,16 +719,15 @@ Lemma boundary_no_incidences rdel n isb it0 iend :
   b_begin false rdel n isb = Some (mkB it0 false (-1)%Z).
 Proof. intros E0 E1. unfold b_begin. rewrite E0, E1. reflexivity. Qed.
 
-(* stepping back from begin and then forward again: defined (and invalid) for every -- form except the early
-   return of CellFaceIterImpl *)
+(* stepping back from begin and then forward again: defined (and invalid) for every ++ / -- form *)
 Theorem back_then_forward_defined nx pv l m x t :
-  pv <> PrevDecEarly -> l = x :: t -> (1 <= m)%Z ->
+  l = x :: t -> (1 <= m)%Z ->
   exists c' c'', c_prev pv l (mkC 0 0%Z true (Some x)) = Some c' /\ c_valid c' = false /\
                  c_next nx l m c' = Some c'' /\ c_valid c'' = false.
 Proof.
-  intros Hpv E Hm. pose proof (begin_wf l m x t E Hm) as W.
+  intros E Hm. pose proof (begin_wf l m x t E Hm) as W.
   assert (P : c_prev pv l (mkC 0 0%Z true (Some x)) = c_prev PrevWrap l (mkC 0 0%Z true (Some x))).
-  { destruct pv; [reflexivity|apply prev_dec_wrap; destruct W; assumption|congruence]. }
+  { destruct pv; [reflexivity|apply prev_dec_wrap; destruct W; assumption]. }
   destruct (prev_defined l m _ W) as (c' & Ec'). rewrite P. exists c'.
   pose proof (prev_wf _ _ _ _ W Ec') as W'.
   assert (V' : c_valid c' = false).
